@@ -65,8 +65,11 @@ static void fill_input(Operand &o, const Case &c, int which, uint64_t junk)
         // constant operands live in ONE persistent 3-word buffer per slot (ending at a guard page): the same pointer is passed on every call of
         // every case while its content changes -- anything keyed on the pointer value (a memo, a cached derived quantity) goes stale at once
         static guard::Buf persist[2];
+        if (pbt::in_concurrent()) { o.gb.alloc(3 * sizeof(E)); o.arena = o.gb.as<E>() + (3 - o.dim); o.guarded = true; } // (concurrent callers: every caller its own buffer)
+        else {
         if (!persist[which].p) persist[which].alloc(3 * sizeof(E));
         o.arena = persist[which].as<E>() + (3 - o.dim); o.guarded = true; // (base operands: the word(s) right before the guard page)
+        }
         for (int i = 0; i < o.dim; i++) o.arena[i].fe = pool[i];
         for (int k = 0; k < o.L; k++) for (int i = 0; i < o.dim; i++) o.eff[k][i] = pool[i];
         return;
@@ -150,7 +153,7 @@ static bool run_row(const Row &r, const Case &c, uint64_t junk, std::vector<ref:
     static thread_local uint64_t g_static_probe = 0;
     static thread_local std::vector<uint32_t> row_calls(NROWS, 0);
     const uint32_t ncalls = row_calls[&r - ROWS]++;   // the first call of a routine is never measured (one-time initialisation is legitimate)
-    const bool probe = !SAN && probe_statics && ncalls >= 1 && ((++g_static_probe & 7) == 0); // (not in sanitizer builds: their runtime keeps bookkeeping in the executable's own data segment)
+    const bool probe = !SAN && !pbt::in_concurrent() && probe_statics && ncalls >= 1 && ((++g_static_probe & 7) == 0); // (not in sanitizer builds: their runtime keeps bookkeeping in the executable's own data segment)
     uint64_t cs0 = probe ? statics::checksum() : 0;
     if (alias == 0) r.call(*t); else if (alias == 1) r.call_ca(*t); else r.call_cb(*t);
     if (probe && statics::checksum() != cs0) { why = "wrote to static storage of the process (a hidden buffer or memo): memory other than the designated output positions changed during the call"; return false; }
@@ -351,7 +354,10 @@ int main(int argc, char **argv)
         fam["c16." + f].push_back(i);
     }
     for (auto &kv : fam) { auto rows = kv.second; props.push_back({kv.first, [rows] { return gen_row_case(rows); }, body_row, (double)rows.size(), false, desc_row, 100}); }
+    // every overload in ONE property: calls of different routines interleave at random inside a process (see h_wrappers.cpp)
+    { std::vector<int> all; for (int i = 0; i < NROWS; i++) all.push_back(i); props.push_back({"c16.mixed", [all] { return gen_row_case(all); }, body_row, NROWS / 4.0, false, desc_row, 100}); }
     props.push_back({"c16.copies", [] { return rc::gen::apply([](int w, int pl, std::vector<uint64_t> v) { std::vector<uint64_t> o{(uint64_t)w, (uint64_t)pl}; o.insert(o.end(), v.begin(), v.end()); return o; },
                                         g::irange(0, 2), g::irange(0, 2), g::fe_vec(24)); }, body_copies, 3, false, desc_copies, 100});
+    for (auto &p : props) p.mt_ok = true;
     return pbt::harness_main(argc, argv, "h_cubic_batch", props);
 }
